@@ -80,6 +80,12 @@ BUILT = {
    text="TLC checks CreditRange, the DRR fairness bound over joint-backlog periods, RR one-per-visit and WRR allowance over a selection history on all workloads within the bounds; emitted and random workloads (packets larger/smaller than the quantum, classes emptying and refilling mid-round, shared classes) are run on the real schedulers, binding every class's deficit at every tap and the departure order.",
    note="integer lattice (quantum unit 1500, sizes multiples of 500); where the scan resumes after an idle period is left open as the property does",
    design="6/C15"),
+
+ "C20": dict(
+   technique="TLA+ spec Realtime.tla model-checked with TLC against an adversarial virtual wall clock + TLC trace validation of the real RealtimeEnvironment under a scripted monotonic/sleep pair; same programs executed on Environment and RealtimeEnvironment and validated against SimKernel",
+   text="Exhaustive TLC runs over all agendas and wall-clock behaviours within the bounds (sleeps returning early, exactly, late, late by exactly factor; bodies consuming wall time; sync from the top level and from bodies; step repeated after a raise) check NeverEarly, StrictIff, NonStrictNeverRaises, SyncRebases, SleepsUntilDue; TLC-emitted schedules, random longer agendas and generated kernel programs are run on the real RealtimeEnvironment with onl.sim.rt.monotonic/sleep replaced by a scripted virtual clock, the pacing trace is validated against the specification, the kernel log must equal the plain Environment's and (initial time 0) is validated by TLC against SimKernel.",
+   note="virtual clock on a quarter-tick lattice, factors with exact binary representation; real wall clocks stay with tests/test_rt.py; the text after 'Simulation too slow for real time' is not compared",
+   design="6/C20"),
 }
 
 checks = []
